@@ -47,7 +47,11 @@ func (t Threshold) IsValid([]byte) error {
 }
 
 func (t Threshold) Threshold(quorum uint) uint {
-	return uint(math.Ceil(float64(quorum) * (t / MaxThreshold).Float64()))
+	// NOTE threshold has one decimal place; integer arithmetic keeps the
+	// ceiling exact, float64(quorum) * (t / 100) may round up over an integer.
+	t10 := uint64(math.Round(t.Float64() * 10)) //nolint:mnd //...
+
+	return uint((uint64(quorum)*t10 + 999) / 1000) //nolint:mnd //...
 }
 
 func (t Threshold) VoteResult(quorum uint, set []string) (result VoteResult, key string) {
